@@ -80,6 +80,7 @@ pub fn lockstep_check(ctx: &mut Ctx, kind: Kind, what: &str) -> bool {
     ctx.count_n("lockstep.mul_calls", log.calls[2]);
     ctx.count_n("lockstep.eval_poly_calls", log.calls[3]);
     ctx.count_n("lockstep.differences_only_in_contract_garbage_region", log.garbage_region_differences);
+    ctx.count_n("lockstep.perturbed_shadow_calls", log.perturbed_calls);
     ctx.stats.tuples.extend(log.tuples.iter().copied());
     if let Some(v) = log.violations.first() {
         let prim = v.split('(').next().unwrap_or("?").to_string();
